@@ -539,6 +539,28 @@ def exitDatagramReceived (cfg : ExitCfg) (tunnelRaises : Bool) (d : Bytes) : Exc
   | .ok false => .ok .dropped
   | .ok true => if tunnelRaises && !Gen.exitTunnelProtected then .error .handler else .ok .tunneled
 
+/-- the two callbacks asyncio invokes on an exit socket: address conversion, then the shared datagram_received
+    (`mapped`: IPv4-mapped IPv6 source, ignored by the IPv6 socket) -/
+def exitEntry (cfg : ExitCfg) (tunnelRaises v6 mapped : Bool) (arity : Nat) (d : Bytes) : Except Exn ExitOutcome :=
+  if v6 && mapped then .ok .dropped
+  else match addrConv (if v6 then Gen.exitV6AddrSlice else Gen.exitV4AddrSlice) arity with
+    | .error e => .error e
+    | .ok _ => exitDatagramReceived cfg tunnelRaises d
+
+/-! ### BroadcastBootstrapEndpoint.datagram_received — the LAN discovery socket -/
+
+/-- `HDR_ANNOUNCE + prefix` from a beacon: overlay.walk_to(addr) (builds and sends an introduction request; whatever it
+    does is outside the model: `walkRaises`); a datagram starting with our prefix is handed to Community.on_packet;
+    everything else is dropped.  Whether walk_to is called inside `try/except Exception` is read from the source. -/
+def bcastDatagramReceived (env : Env) (lk : Except Exn (Option Nat)) (hdr : Bytes) (walkRaises : Bool) (lid : Nat)
+    (o : Overlay) (data : Bytes) : Out :=
+  if hdr.isPrefixOf data then
+    if o.pfx == data.drop hdr.length then
+      ([], if walkRaises && !Gen.bcastWalkProtected then some .handler else none)
+    else ([], none)
+  else if o.pfx.isPrefixOf data then communityOnPacket env lk lid o data
+  else ([], none)
+
 /-! ### Network.load_snapshot -/
 
 /-- the loop of load_snapshot.  `fuel` bounds the iterations only to make the definition structural
